@@ -241,6 +241,30 @@ impl Expression for DelFn {
             state.external = false_result.merge(true_result);
         }
 
+        // Deleting from a variable changes that variable's type and invalidates
+        // what the compiler knew about its value.
+        if let Some(ident) = self.query.variable_ident()
+            && let Some(details) = state.local.variable(ident).cloned()
+        {
+            let mut removed = details.type_def.clone();
+            removed.remove(self.query.path(), compact.unwrap_or(false));
+            let type_def = match compact {
+                Some(_) => removed,
+                None => {
+                    let mut compacted = details.type_def;
+                    compacted.remove(self.query.path(), true);
+                    removed.union(compacted)
+                }
+            };
+            state.local.insert_variable(
+                ident.clone(),
+                crate::compiler::type_def::Details {
+                    type_def,
+                    value: None,
+                },
+            );
+        }
+
         TypeInfo::new(state, return_type)
     }
 }
